@@ -104,6 +104,21 @@ def standard_run(rep, tier, seed, replay, proof_ok, proof_msg, gen_cases, evalua
         text = "\n".join(c["lines"]) + "\n"
         if res.crash is not None:
             sig = "crash:" + crash_signature(res.crash)
+            if "Assertion" in sig and rep.pid != "C15":
+                # an internal assertion tripped: that is C15's business; decide *this* property on the same input with assertions compiled out
+                res2 = rerun_ndebug(c, omp)
+                if res2 is not None and res2.crash is None and res2.cpp is not None and res2.lean is not None:
+                    corr2, orc2 = evaluate(res2)
+                    if not orc2:
+                        rep.notes.append("case %s trips %s but the property's oracle accepts the run with assertions compiled out (reported by C15)" % (c["name"], sig))
+                        if corr2:
+                            corr_broken.append((res2, corr2))
+                        continue
+                    for sig2, msg in orc2:
+                        oracle_found = True
+                        rep.violation(sig2, "# property oracle failed on the implementation's output: %s\n# (the asserting build aborts on this input with %s)\n%s" % (msg.replace("\n", "\n# "), sig, text), True,
+                                      "case %s: %s" % (c["name"], msg))
+                    continue
             rep.violation(sig, "# harness aborted (sanitizer / assertion / signal) inside this case\n# " + res.crash.replace("\n", "\n# ") + "\n" + text, True,
                           "the real library aborted on case %s: %s" % (c["name"], crash_signature(res.crash)))
             oracle_found = True
@@ -156,7 +171,22 @@ def standard_run(rep, tier, seed, replay, proof_ok, proof_msg, gen_cases, evalua
     rep.cov["configs_built"] = ["D=%d periodic=%d" % c for c in usable]
 
 
+def rerun_ndebug(case, omp=False):
+    spec = core.harness_spec(case["D"], case["periodic"], omp)
+    spec = dict(spec, name=spec["name"] + "_ndebug", flags=list(spec["flags"]) + ["-DNDEBUG"])
+    res = common.build_many([spec])
+    path, log = res[spec["name"]]
+    if not path:
+        return None
+    out = core.run_cases([case], {(case["D"], case["periodic"]): path})
+    return out[0] if out else None
+
+
 def crash_signature(err):
+    import re
+    m = re.search(r"Assertion `(.*?)' failed", err)
+    if m:
+        return "Assertion `%s' failed" % m.group(1)[:100]
     for ln in err.split("\n"):
         if "runtime error:" in ln:
             return ln.split("runtime error:")[1].strip()[:120]
